@@ -16,6 +16,7 @@ mod engine_w;
 mod cli_w;
 mod proto_w;
 mod bisync_w;
+mod serve_w;
 #[global_allocator]
 static GLOBAL: proto_w::Tracking = proto_w::Tracking;
 /// the CLI's modules, #[path]-included unedited from the tree under check
@@ -31,6 +32,8 @@ pub mod cli {
     pub mod meta;
     #[path = "../../repo/src/bin/copia/archive.rs"]
     pub mod archive;
+    #[path = "../../repo/src/bin/copia/wire.rs"]
+    pub mod wire;
 }
 pub use cli::plan;
 
@@ -94,6 +97,9 @@ fn search(contract: &str, seed: u64, budget: u64) -> i32 {
     if c.ends_with("run_bisync") || c == "bisync" || c.ends_with("apply") || c.ends_with("copy_atomic") || c.contains("Archive::") {
         return bisync_w::search(c, false);
     }
+    if c == "serve" || c.starts_with("handle_") || c.ends_with("safe_join") || c.ends_with("read_frame") || c.ends_with("write_frame") || c.ends_with("read_magic") || c.ends_with("tmp_of") || c.ends_with("::serve") {
+        return serve_w::search(c, false);
+    }
     if c.starts_with("run_") || c.starts_with("cli") {
         return cli_w::search(c, seed, false);
     }
@@ -118,6 +124,7 @@ fn run(w: &str) -> i32 {
         "glob" => glob_w::run(w),
         "patch" => patch_w::run(w),
         "cli" => cli_w::run_w(w),
+        "serve" => serve_w::run_w(w),
         "bisync" => bisync_w::run_w(w),
         "bisync-trace" => bisync_w::run_trace(w),
         "pairid" => { match bisync_w::pair_id_injective() { Some(x) => { println!("REPRODUCED: {x}"); 1 } None => { println!("not reproduced"); 0 } } }
@@ -141,6 +148,7 @@ fn twin(name: &str, seed: u64, budget: u64) -> i32 {
     match name {
         "is_excluded" => twins::is_excluded(seed, budget),
         "cli_chain" => cli_w::search("cli", seed, true),
+        "serve_sessions" => serve_w::search("serve", true),
         "bisync_histories" => bisync_w::search("bisync", true),
         "signature_generate" => engine_w::twin_signature_generate(seed, budget),
         "signature_structure" => engine_w::twin_signature_structure(seed, budget),
